@@ -93,8 +93,13 @@ func famRepro(tr *Trace, scratch string, seed int64, tier string, nfpmBin string
 			}
 		}
 		c := pc.Cfg
-		c.Pmt = []int{1600000000, 1234567890, 0}[i%3]
+		// the fixed package mtime: in the past, the epoch itself, and in the FUTURE (a date the build clock has not reached)
+		c.Pmt = []int{1600000000, 1234567890, 0, 2100000000}[i%4]
 		c.PmtZero = c.Pmt == 0
+		if i%5 == 4 {
+			c.Maintainer = "" // whatever stands in for an unset maintainer does so in every build
+		}
+
 		c.UseSDE = i%4 == 1
 		c.RpmBuildHost = "buildhost.example"
 		// at least two maintainer scripts, a changelog now and then
@@ -125,6 +130,14 @@ func famRepro(tr *Trace, scratch string, seed int64, tier string, nfpmBin string
 			pc.Nodes = append(pc.Nodes, Node{P: ".cache", Kind: "dir", Mode: 0o755, Mt: 1400000001})
 			c.Entries = append(c.Entries, Entry{Type: "file", Src: ".e*", Dst: "/opt/dots"}, Entry{Type: "file", Src: ".c*", Dst: "/opt/dots2"})
 			c.NoGlob = false
+		}
+		if i%5 == 1 { // destinations that differ only in letter case: their relative order is part of the bytes
+			for _, nm := range []string{"casepair-upper.txt", "casepair-lower.txt"} {
+				b := []byte(nm + "\n")
+				pc.Nodes = append(pc.Nodes, Node{P: nm, Kind: "file", Mode: 0o644, Mt: 1400000002, Size: len(b), data: b, Cid: cidOf(b)})
+			}
+			c.Entries = append(c.Entries, Entry{Type: "file", Src: "casepair-upper.txt", Dst: "/usr/share/doc/repro/README"}, Entry{Type: "file", Src: "casepair-lower.txt", Dst: "/usr/share/doc/repro/readme"},
+				Entry{Type: "file", Src: "casepair-upper.txt", Dst: "/usr/share/doc/repro/Makefile"}, Entry{Type: "file", Src: "casepair-lower.txt", Dst: "/usr/share/doc/repro/makefile"})
 		}
 		Materialise(pc.Root, pc.Nodes)
 		if c.Changelog != nil {
